@@ -69,14 +69,15 @@ PROPS = {
     ),
     "C06": dict(
         level="exploration",
-        modules=["specs.patching", "specs.aclmatch"],
+        modules=["specs.patching", "specs.aclmatch", "specs.filteracl"],
         bounded=[("bounded.c06", "run")],
         assumes=["A2", "A6", "A9", "A12"],
         trusted=["apply_acl / apply_acl_diff use match_row_to_acl through an assumed contract (opaque function macl); of the matcher, "
                  "_select_match (prio / specificity choice, children-rule merge) and match_row_to_acl's dispatch are proved, "
                  "_find_acl_matches (regex matching) and merge_dicts are assumed; compared with an independent reference matcher in "
                  "the bounded layer",
-                 "compile_acl_text / _merge_toplevel: bounded only"],
+                 "filter_config / filter_patch are proved to be parse -> apply_acl(fatal_acl=False) -> join (composition, stages opaque)",
+                 "compile_acl_text / _merge_toplevel, filter_diff (shift_op / tree_to_diff string handling): bounded only"],
     ),
     "C07": dict(
         level="exploration",
@@ -191,10 +192,12 @@ PROPS = {
     ),
     "C02": dict(
         level="exploration",
-        modules=["specs.patching", "specs.rbcommon", "specs.aclmatch"],
+        modules=["specs.patching", "specs.rbcommon", "specs.aclmatch", "specs.frontends"],
         bounded=[("bounded.c02", "run")],
         assumes=["A2", "A6", "A9", "A12"],
-        trusted=["match_row_to_acl is an assumed contract (opaque macl); make_patch is not under contract",
+        trusted=["match_row_to_acl is an assumed contract (opaque macl) as seen from apply_acl*; _diff_and_patch is proved to filter old and "
+                 "new by the generators' ACL before diffing and to hand the ACL and the filter ACL to make_diff (composition contract, "
+                 "stages opaque); make_patch is not under contract",
                  "coverage in the bounded layer is decided by an independent reference matcher; ambiguous governing rules are skipped"],
     ),
 }
